@@ -12,6 +12,13 @@ func (x *Explorer) doCall(fr *frame, in ssa.Instruction, ev Event, site *ssa.Cal
 	var resType types.Type
 	if site != nil {
 		resType = site.Type()
+	} else if ci, ok := in.(ssa.CallInstruction); ok && ev.Builtin == "" {
+		// deferred call: its results are discarded by the language, but the rules want to see that an error was dropped
+		if rs := ci.Common().Signature().Results(); rs.Len() == 1 {
+			resType = rs.At(0).Type()
+		} else if rs.Len() > 1 {
+			resType = rs
+		}
 	}
 	// builtins
 	if ev.Builtin != "" {
